@@ -262,6 +262,17 @@ def Iter.prev (env : Env) (st : Iter) : Nat × Iter :=
   let i1 := st1.i - 1
   (st1.buf.getD i1 0, { st1 with i := i1 })
 
+/-- `next_prime()` during which an allocation fails: only a call that refills the buffer allocates;
+    the exception (std::bad_alloc) reaches the caller and the rollback guard repositions the
+    iterator where it was.  A call that stays inside the buffer allocates nothing. -/
+def Iter.nextFault (env : Env) (st : Iter) (k : Nat) : Except Err Nat × Iter :=
+  if st.i + 1 ≥ st.size then (.error .badAlloc, st.resetTo st.snapNext) else st.next env k
+
+/-- `prev_prime()` during which an allocation fails -/
+def Iter.prevFault (env : Env) (st : Iter) : Except Err Nat × Iter :=
+  if st.i = 0 then (.error .badAlloc, st.resetTo st.snapPrev)
+  else let r := st.prev env; (.ok r.1, r.2)
+
 /-- Operations of a history on one iterator. -/
 inductive Op where
   | next (k : Nat)
